@@ -74,7 +74,7 @@ func corpusChunk(r *kernel.RNG, maxLines int) string {
 
 var tgSyms = []string{"a", "b", "foo", "x1", "long-name", "q?", "b.c", "a.b.c", ".x", "nil", "true", "false", "$", "&", "hget", "def", "fn"}
 var tgKeys = []string{"a:", "key:", "b2:"}
-var tgNums = []string{"0", "1", "-1", "42", "-7", "1_000", "0x1F", "0o17", "0b101", "1.5", "-2.5", ".5", "1e3", "1e-3", "-2.5e+3", "1E10", "3ULL", "0xffULL", "1.", "NaN", "9223372036854775807"}
+var tgNums = []string{"0", "1", "-1", "42", "-7", "1_000", "0x1F", "0o17", "0b101", "1.5", "-2.5", ".5", "1e3", "1e-3", "-2.5e+3", "1E10", "3ULL", "0xffULL", "1.", "NaN", "9223372036854775807", "7__ULL", "1__0", "0x_1", "1_", "0b_1", "1_ULL", "0x1_ULL", "3___ULL", "0o7_ULL", "1_000ULL", "_", "1__", "0x", "0b", "1e", "1e+", "-", "+", "-.", "1.5.2", "0x1.8", "1_e3", "1e_3"}
 var tgStrs = []string{"\"p\n\nq\"", `""`, `"s"`, `"a b"`, `"a\"b"`, `"x\\y"`, `"tab\there"`, `"nl\nx"`, `"((("`, `"]})"`, `"// not a comment"`, `"/* nor this */"`, "\"tick ` tick\"", `"é世界"`, `"'q'"`, `"a\#b"`, "\"one\r\ntwo\"", "\"cr\rlf\"", "\"\r\n\"", "\"a\uFEFFb\"", "\"\uFEFF\"", "\"n\x00l\""}
 var tgRaws = []string{"``", "`raw`", "`raw \"q\" (`", "`two\nlines`", "`// c`", "`a\\b`", "`]}`", "`first\n\nthird`", "`\n`", "`a\n\n\nb\n`", "`r1\r\nr2`", "`\r\n`", "`a\uFEFFb`"}
 var tgChars = []string{"'a'", "'Z'", "'('", "'\\n'", "'\\''", "'\"'", "' '", "'é'"}
